@@ -183,7 +183,14 @@ func exec[S any](p *Prop[S], s S) (v *V) {
 	defer func() {
 		if r := recover(); r != nil {
 			v.fail = ""
-			v.Failf("panic", "panic: %v\n%s", r, trimStack(debug.Stack()))
+			sig := "panic"
+			msg := fmt.Sprint(r)
+			for _, env := range []string{"failed to listen", "address already in use", "too many open files", "cannot allocate memory", "resource temporarily unavailable"} {
+				if strings.Contains(msg, env) {
+					sig = "harness" // the environment failed the harness, not the code under test: inconclusive
+				}
+			}
+			v.Failf(sig, "panic: %v\n%s", r, trimStack(debug.Stack()))
 		}
 	}()
 	p.Run(s, v)
